@@ -607,6 +607,38 @@ func runC07(prop string, res *Result, pool *DrvPool, r *Rng) {
 			res.Sample(map[string]interface{}{"stream": clip(input), "dumps": len(dumps)})
 		}
 	}
+	// the unterminated last line: the stream ends right after a line's text, before its newline, for
+	// every line of a few streams - the documented grammar still scans that line in whatever state
+	// the scanner is (implementation against the model; no panic, the remainder is a suffix)
+	nu := 8
+	if res.Tier == "thorough" {
+		nu = 300
+	}
+	for i := 0; i < nu; i++ {
+		input := joinSegs(genSegments(r, 1+r.Intn(2)))
+		for p := 0; p < len(input); p++ {
+			if input[p] != '\n' || p == 0 || input[p-1] == '\n' {
+				continue
+			}
+			cutAt := p
+			if input[p-1] == '\r' && r.Bool() {
+				cutAt = p - 1
+			}
+			cutIn := input[:cutAt]
+			cop := &ScanOp{Op: "scan", Data: hb(cutIn), Sched: []int{}, Final: "eof"}
+			got := implScan(cop)
+			res.Eval("unterminated|"+cutIn, true)
+			res.Count("unterminated-last-line")
+			if got.Panic {
+				res.Violation(Finding{Stream: "scan", What: "ScanSnapshot panicked on a stream that ends on a line without its newline: " + got.PanicMsg, Op: cop})
+				continue
+			}
+			if !strings.HasSuffix(cutIn, got.Rest.String()) {
+				res.Violation(Finding{Stream: "scan", What: "the remainder is not a suffix of the input (stream ending on a line without its newline)", Op: cop})
+			}
+			modelScan(pool, res, cop, got, nil)
+		}
+	}
 }
 
 // C10: truncation and read failure at every offset.
